@@ -66,6 +66,14 @@ CHECKS = {
    "exhaustive configuration grid on the real drivers with exact want-marker oracle, positional oracle and inert-twin differential",
    "Every cell of scan-tests x exclude-paths x {flag, env} x {standalone, vet} is run on a module mixing regular, in-package and external test files, generated files, a legacy sub-package and a testdata package; the diagnostics must equal the want-markers whose own file and annotation-holding files survive the reference filter, none may lie in an excluded file, and replacing excluded files by inert twins must change nothing.",
    "go list / go vet package selection trusted; scratch path free of exclude entries", "2/C14"),
+ "C05": ("model_checking", "E1 histmc (generated packages), go/types as reference model",
+   "bounded-exhaustive enumeration of (type, interface, annotation) cases on the real analyzers with Go's type checker as the reference",
+   "All pairs of 67 type expressions in parameter and result position (thorough: 4 positions x receiver kinds x & marker), arities, method sources (declared, promoted through E / *E / embedded interface), interface shapes, unexported methods, and the import-qualifier grid (13 import configurations x import order x qualifier kinds x 7 interface-name kinds) are rendered ~48 cases per package, analysed by the real analyzers and compared with types.Implements / MissingMethod / types.Identical and Go's import binding.",
+   "go/types is the reference by the property's own wording; alias-renamed imports referenced by their original name and the qualifier `_` are not judged", "2/C05"),
+ "C18": ("exploration", "E4 drvmc + E2",
+   "exhaustive flag x env x value grid on the real executables against a reference resolver; exhaustive bounded string sweep of the real parser functions",
+   "Per option the grid {flag absent, flag empty, flag value} x {env unset, env empty, env value} over all listed value spellings, all pairs of options, three-option cells and hostile environment strings is run on the real binary and the vet driver against a probe module whose planted violations make every option observable; the resolved configuration must be flag > env > default and no environment value may make the tool fail. In-process, all strings of length <=4 (<=5 thorough) over an 8-symbol alphabet go through config.FromEnv / CreateFlagSet / ParseFlagsFromFlagSet against the same reference.",
+   "syntactically invalid boolean FLAG values are rejected by package flag before GoGreement runs (not judged)", "2/C18"),
 }
 
 NA_REASON = "check not built yet in this round (planned, see DESIGN.md section 2)"
@@ -98,11 +106,11 @@ def main():
             "add_only": True,
         },
         "engines": [
-            {"name": "E1 histmc", "path": "/verif/mc/internal/e1", "serves_properties": ["C01", "C02", "C03", "C04", "C07", "C08", "C12", "C13", "C17"],
+            {"name": "E1 histmc", "path": "/verif/mc/internal/e1", "serves_properties": ["C01", "C02", "C03", "C04", "C05", "C07", "C08", "C12", "C13", "C17"],
              "kind_free_text": "explicit-state search over declaration/statement histories; successor = history + one declaration, re-rendered and re-analysed by the real analyzers (checker.Analyze)"},
             {"name": "E2 seqmc", "path": "/verif/mc/internal/checks", "serves_properties": ["C15", "C16", "C19", "C06"],
              "kind_free_text": "exhaustive enumeration of inputs / operation sequences through the public API against a boring reference model"},
-            {"name": "E4 drvmc", "path": "/verif/mc/internal/drv", "serves_properties": ["C06", "C11", "C14", "C17"],
+            {"name": "E4 drvmc", "path": "/verif/mc/internal/drv", "serves_properties": ["C06", "C08", "C11", "C14", "C17", "C18"],
              "kind_free_text": "grid runner over the real executables (gogreement, go vet -vettool) on programs materialised in a tmpfs scratch directory; rebuilt from the working tree on every run"},
             {"name": "E3 schedmc", "path": "/verif/mc/internal/e3", "serves_properties": ["C11"],
              "kind_free_text": "hand-written controlled scheduler + DFS explorer over the go/analysis action DAG; deviation-bounded; replay of recorded choice sequences with hard error on divergence"},
